@@ -155,6 +155,18 @@ func mustPassFrom(fn *ssa.Function, from ssa.Instruction, pred func(ssa.Instruct
 	return true
 }
 
+// mustPassAt: every path starting AT instruction `at` (inclusive) to any
+// Return passes pred.
+func mustPassAt(fn *ssa.Function, at ssa.Instruction, pred func(ssa.Instruction) bool) bool {
+	reached := core.ReachAt(fn, at, nil, pred)
+	for _, ret := range core.Returns(fn) {
+		if reached[ret] && !pred(ret) {
+			return false
+		}
+	}
+	return true
+}
+
 func isCallInstr(in ssa.Instruction, pred func(*ssa.CallCommon) bool) bool {
 	ci, ok := in.(ssa.CallInstruction)
 	return ok && pred(ci.Common())
